@@ -79,6 +79,24 @@ pub fn run(run: &Run) {
         }
         true
     });
+    enum_strings_padded(run, "enum_alpha_user_long_pads", &ALPHA_USER, run.pick(3u32, 4u32), &|s, l| {
+        for p in profs {
+            if check(run, p, s, l).is_err() {
+                shrink_report(run, p, Op::Enforce, s);
+                return false;
+            }
+        }
+        true
+    });
+    stress(run, "alignment_and_runs", &PAYLOADS_USER, &|s, l| {
+        for p in profs {
+            if check(run, p, s, l).is_err() {
+                shrink_report(run, p, Op::Enforce, s);
+                return false;
+            }
+        }
+        true
+    });
     run.prop("random", run.pick(3_000_000, 60_000_000), || (username_strings(), 0..2usize), |(s, pi), l| check(run, profs[*pi], s, l));
 }
 
